@@ -484,6 +484,11 @@ impl Scripted {
             Some(acts) => interp(&acts, Store::Rw(deps.storage), &deps.querier),
             None => (Err(()), vec!["unparsed".into()]),
         };
+        // the chain id the contract is told is noted when it is not the default one
+        let mut notes = notes;
+        if env.block.chain_id != "cosmos-testnet-14002" {
+            notes.insert(0, format!("cid={}", penc(&env.block.chain_id)));
+        }
         let line = format!(
             "{} {} {} {} {} {} {} {}#{:08x}|{}",
             env.contract.address,
@@ -1063,6 +1068,18 @@ fn exec_wasm_on<A: Api>(mut apps: Vec<AppOf<A>>, sym_fn: fn(&AppOf<A>, &str) -> 
                 outcome(
                     guarded(|| {
                         app.set_block(BlockInfo { height: h, time: Timestamp::from_nanos(t), chain_id });
+                        Ok(())
+                    }),
+                    |_| "ok".into(),
+                )
+            }
+            // `block-chain ID`: set_block with the current height and time and another chain id
+            "block-chain" => {
+                let b = app.block_info();
+                let chain_id = pdec(a(1));
+                outcome(
+                    guarded(|| {
+                        app.set_block(BlockInfo { height: b.height, time: b.time, chain_id });
                         Ok(())
                     }),
                     |_| "ok".into(),
